@@ -115,24 +115,43 @@ Proof.
   - rewrite N.shiftl_spec_low by exact H. reflexivity.
 Qed.
 
+Lemma land_prefix_eq w p a i : p <= w -> a < 2 ^ w -> i < 2 ^ w ->
+  (N.land a (N.shiftl (N.ones p) (w - p)) = N.land i (N.shiftl (N.ones p) (w - p))
+   <-> N.shiftr a (w - p) = N.shiftr i (w - p)).
+Proof.
+  intros Hp Ha Hi. rewrite land_eq_iff. split.
+  - intros H. apply N.bits_inj. intros n. rewrite !N.shiftr_spec'.
+    destruct (N.ltb_spec (n + (w - p)) w) as [Hn|Hn].
+    + apply H. rewrite testbit_prefix_mask by exact Hp.
+      apply andb_true_iff. split; [apply N.leb_le; lia|apply N.ltb_lt; exact Hn].
+    + assert (Hlog : forall z, z < 2 ^ w -> z = 0 \/ N.log2 z < w).
+      { intros z Hz. destruct (N.eq_dec z 0) as [->|Hnz]; [left; reflexivity|right].
+        apply N.log2_lt_pow2; [lia|exact Hz]. }
+      assert (Hbit : forall z, z < 2 ^ w -> N.testbit z (n + (w - p)) = false).
+      { intros z Hz. destruct (Hlog z Hz) as [->|Hl]; [apply N.bits_0|].
+        apply N.bits_above_log2. lia. }
+      rewrite (Hbit a Ha), (Hbit i Hi). reflexivity.
+  - intros H n Hm. rewrite testbit_prefix_mask in Hm by exact Hp.
+    apply andb_true_iff in Hm as [H1 H2]. apply N.leb_le in H1.
+    apply (f_equal (fun x => N.testbit x (n - (w - p)))) in H.
+    rewrite !N.shiftr_spec' in H. replace (n - (w - p) + (w - p)) with n in H by lia. exact H.
+Qed.
+
+(* a /p network on IPv4 (32 bit) and on IPv6 (128 bit): same first p bits *)
 Theorem valid_ip_prefix_v4 a i p : p <= 32 -> a < 2 ^ 32 -> i < 2 ^ 32 ->
   valid_ip_on_intf (V4 a) (mkIfAddr (V4 i) (N.shiftl (N.ones p) (32 - p))) = true
   <-> N.shiftr a (32 - p) = N.shiftr i (32 - p).
 Proof.
-  intros Hp Ha Hi. rewrite valid_ip_on_intf_spec. cbn [ia_mask ia_ip ip_num]. split.
-  - intros [_ H]. apply N.bits_inj. intros n. rewrite !N.shiftr_spec'.
-    destruct (N.ltb_spec (n + (32 - p)) 32) as [Hn|Hn].
-    + apply H. rewrite testbit_prefix_mask by exact Hp.
-      apply andb_true_iff. split; [apply N.leb_le; lia|apply N.ltb_lt; exact Hn].
-    + assert (Hlog : forall z, z < 2 ^ 32 -> N.log2 z < 32).
-      { intros z Hz. destruct (N.eq_dec z 0) as [->|Hnz]; [reflexivity|].
-        apply N.log2_lt_pow2; [lia|exact Hz]. }
-      pose proof (Hlog a Ha). pose proof (Hlog i Hi).
-      rewrite !N.bits_above_log2 by lia. reflexivity.
-  - intros H. split; [reflexivity|]. intros n Hm. rewrite testbit_prefix_mask in Hm by exact Hp.
-    apply andb_true_iff in Hm as [H1 H2]. apply N.leb_le in H1.
-    apply (f_equal (fun x => N.testbit x (n - (32 - p)))) in H.
-    rewrite !N.shiftr_spec' in H. replace (n - (32 - p) + (32 - p)) with n in H by lia. exact H.
+  intros Hp Ha Hi. unfold valid_ip_on_intf. cbn [ia_ip ia_mask].
+  rewrite subnet_test_v4_pinned, N.eqb_eq. apply land_prefix_eq; assumption.
+Qed.
+
+Theorem valid_ip_prefix_v6 a i p : p <= 128 -> a < 2 ^ 128 -> i < 2 ^ 128 ->
+  valid_ip_on_intf (V6 a) (mkIfAddr (V6 i) (N.shiftl (N.ones p) (128 - p))) = true
+  <-> N.shiftr a (128 - p) = N.shiftr i (128 - p).
+Proof.
+  intros Hp Ha Hi. unfold valid_ip_on_intf. cbn [ia_ip ia_mask].
+  rewrite subnet_test_v6_pinned, N.eqb_eq. apply land_prefix_eq; assumption.
 Qed.
 
 (* ---- per-interface address filtering ---------------------------------------------------------- *)
